@@ -162,12 +162,16 @@ func zzC14(mode int) {
 
 	// verifier outcome
 	info := &TokenInfo{UserID: "u"}
-	expNs := 1 << 62 // far future
+	// the expiration is any instant of the next ~35 000 years (tokens that "never expire" carry year-9999 sentinels,
+	// further away than the 292 years a time.Duration can hold), or absent
+	expSec, expNsec := 1<<33, 0 // far future
 	if full {
 		info.Scopes = zzScopes("granted", vParam("scopes"))
-		expNs = vIntRange("exp", 0, 1<<61) // 0 = no expiration
+		expSec = vIntRange("expSec", 0, 1<<40)
+		expNsec = vIntRange("expNsec", 0, 999999999)
 	}
-	info.Expiration = vTime(expNs)
+	info.Expiration = vTimeSec(expSec, expNsec)
+	noExp := expSec == 0 && expNsec == 0
 	errInvalid := fmt.Errorf("bad signature: %w", ErrInvalidToken)
 	errOAuth := fmt.Errorf("proto: %w", ErrOAuth)
 	errOther := errors.New("database down")
@@ -235,7 +239,7 @@ func zzC14(mode int) {
 		syntactic = false
 	}
 	RequireBearerToken(verifier, opts)(inner).ServeHTTP(w, req)
-	now := vTimeNs(vLastNow())
+	nowT := vLastNow()
 
 	scopesOK := true
 	for _, s := range required {
@@ -243,7 +247,8 @@ func zzC14(mode int) {
 			scopesOK = false
 		}
 	}
-	expOK := (expNs == 0 && allowMissing) || (expNs != 0 && expNs+skew >= now)
+	// "unexpired within the configured clock skew": expiration + skew is not before now (exact instants, model clock)
+	expOK := (noExp && allowMissing) || (!noExp && !info.Expiration.Add(vDuration(skew)).Before(nowT))
 	admit := syntactic && outcome == 0 && scopesOK && expOK
 
 	if admit {
